@@ -56,6 +56,10 @@ def gen(rng, ctx):
             kind += "+hostile"
         except ValueError:
             pass
+    if op == "limit_fanin" and kind == "plain" and rng.random() < 0.1:
+        cd, tag = G.ambiguous_names(rng, cd)
+        if tag:
+            kind = "plain+ambiguous_names"
     if rng.random() < 0.3:
         cd = G.shuffle_nodes(rng, cd)
     return {"op": op, "c": cd, "kind": kind, "k": rng.randint(2, 5), "stages": rng.randint(1, 4), "repeat": rng.random() < 0.25, "custom_ff": op == "insert_registers" and rng.random() < 0.35, "bare_ff": op == "insert_registers" and rng.random() < 0.15}
